@@ -15,6 +15,7 @@ import (
 	"strconv"
 	"strings"
 	"testing"
+	"unicode/utf8"
 
 	"golang.org/x/perf/benchfmt"
 	sim "verif.local/sim"
@@ -36,10 +37,10 @@ type hExpr struct {
 
 type hResult struct {
 	internal map[string]bool // keys of cfg that are tool-internal (File == false)
-	name   string
-	cfg    [][2]string // configuration in Config order (file unless listed in internal)
-	units  []string
-	cfgMap map[string]string
+	name     string
+	cfg      [][2]string // configuration in Config order (file unless listed in internal)
+	units    []string
+	cfgMap   map[string]string
 }
 
 var hCfgKeys = []string{"goos", "goarch", "pkg", "cpu", "note", "commit"}
@@ -47,10 +48,11 @@ var hCfgVals = map[string][]string{
 	"goos":   {"linux", "darwin", "windows", "plan9"},
 	"goarch": {"amd64", "arm64", "386"},
 	"pkg":    {"p/a", "p/b", "p/c", "golang.org/x/perf/a/very/long/package/path/that/goes/on/and/on/and/on/impl1", "golang.org/x/perf/a/very/long/package/path/that/goes/on/and/on/and/on/impl2"},
-	"cpu":    {"1", "2", "10", "1k", "1Ki", "2M", "1500", "NaN", "inf", "abc", "zed", "3Gi", "1Zi", "1Yi", "2Z", "5.5", "0.5k", "999999999.5", "1000000000", "9.999999994e-1", "1e0", "1.0000000006", "4", "8", "010", "0100", "007", "08", "012k", ".5k", "1.k", ".5Mi", "2.5k", "600", "5.", "0.000000000000000000000000125Ki", "1000000000000000000000000000000k", "0000000000000000000000000000000000002", "+Inf", "-Inf", "+inf", "Infinity", "-infinity", "+7", "\xb5", "\u00b5", "100000001Ki", "99999999Ki", "16777217k", "16777216k", "1Kib", "1001", "1010", "1023", "1025"},
+	"cpu":    {"1", "2", "10", "1k", "1Ki", "2M", "1500", "NaN", "inf", "abc", "zed", "3Gi", "1Zi", "1Yi", "2Z", "5.5", "0.5k", "999999999.5", "1000000000", "9.999999994e-1", "1e0", "1.0000000006", "4", "8", "010", "0100", "007", "08", "012k", ".5k", "1.k", ".5Mi", "2.5k", "600", "5.", "0.000000000000000000000000125Ki", "1000000000000000000000000000000k", "0000000000000000000000000000000000002", "+Inf", "-Inf", "+inf", "Infinity", "-infinity", "+7", "\xb5", "\u00b5", "100000001Ki", "99999999Ki", "16777217k", "16777216k", "1Kib", "1001", "1010", "1023", "1025", "-3", "-20", "-0.5", "-1e3"},
 	"note":   {"base", "opt", "opt2", "x y", "zz", "\xffa", "\xfeb", "\xc3", "é", "\U00010000", "\uffff", "\xf0\x90", "opt ", "opt\t", "base \t", "box\xe9", "box\xe8"}, // invalid UTF-8 and astral runes: bytewise is not code-point order
 	"commit": {"c1", "c2", "c3", "c4", "c5", "c6"},
 }
+
 // hShared values occur under every configuration key, so that the same string is first observed at different times under different keys.
 var hShared = []string{"4", "8", "16", "x", "a\x00", "\x00b", "a", "b", "\x00", "ab", "bc", "abc", "c", "a", "b", "x"} // NUL bytes: values that run into each other when joined naively
 
@@ -59,9 +61,9 @@ var hSubVals = map[string][]string{
 	"size":  {"1", "2", "10", "100", "1k", "1Ki", "64", "1M", "abc", "NaN", "010", "0100", ".5k", "1.k", "600"},
 	"align": {"0", "1", "2"},
 	"poly":  {"IEEE", "Castagnoli", "Koopman", "x86-64", "x86-32", "x86"}, // "-digits" inside a name is a GOMAXPROCS suffix only at its very end
-	"fmt":   {"json", "gob", "xml", "v-1", "v-2"},
-	"size2": {"7", "8", "9"},  // a key that has the projected key "size" as a strict prefix
-	"al":    {"p", "q"},       // a strict prefix of "align"
+	"fmt":   {"json", "gob", "xml", "v-1", "v-2", "x=1", "x=2", "=", "a=b=c"}, // '=' inside a value: only the first one separates key and value
+	"size2": {"7", "8", "9"}, // a key that has the projected key "size" as a strict prefix
+	"al":    {"p", "q"},      // a strict prefix of "align"
 }
 var hBases = []string{"Encode", "Decode", "Sort", "CRC", "SHA-256", "SHA-512", "X-1"} // a dash and digits inside the base are part of it when sub-name parts follow
 var hUnits = []string{"sec/op", "B/op", "allocs/op", "B/s", "widgets"}
@@ -300,7 +302,7 @@ type hProj struct {
 	byTuple  map[string]Key
 	keys     []Key // distinct keys in creation order
 	keyIdx   map[Key]int
-	cfgLate  map[string]bool // .config sub-fields created when the projection already had keys
+	cfgLate  map[string]bool           // .config sub-fields created when the projection already had keys
 	tuples   map[Key]map[string]string // field name -> value (positions shift as .config grows)
 	rank     map[string]map[string]int // flat field name -> value -> first-observation rank
 	held     []hHeld                   // slices returned by ProjectValues that the caller kept
@@ -334,11 +336,65 @@ type hInstance struct {
 	residue *hProj
 	order   []int
 	scratch *benchfmt.Result // reused in place when the run imitates a Reader stream
+	rd      *benchfmt.Reader // the run's results come out of a real Reader, one small input per result
+}
+
+// viaReader renders h as a small benchmark file and hands back the Result that a (re-used) benchfmt.Reader
+// parses from it: the Result then carries a position and is the Reader's one recycled object. ok is false when
+// the text form would not read back as h (values the text format cannot carry, internal keys, no measurements).
+func (h *hResult) viaReader(inst *hInstance, file string) (*benchfmt.Result, bool) {
+	if len(h.internal) > 0 || len(h.units) == 0 || strings.ContainsAny(h.name, " \t\n\r") {
+		return nil, false
+	}
+	var sb strings.Builder
+	for _, kv := range h.cfg {
+		v := kv[1]
+		if v == "" || strings.TrimSpace(v) != v || !utf8.ValidString(v) {
+			return nil, false
+		}
+		for i := 0; i < len(v); i++ {
+			if v[i] < 0x20 || v[i] == 0x7f {
+				return nil, false
+			}
+		}
+		sb.WriteString(kv[0] + ": " + v + "\n")
+	}
+	sb.WriteString("\nBenchmark" + h.name + " 1")
+	for i, u := range h.units {
+		if u == "" {
+			return nil, false
+		}
+		fmt.Fprintf(&sb, " %d %s", i+1, u)
+	}
+	sb.WriteString("\n")
+	if inst.rd == nil {
+		inst.rd = benchfmt.NewReader(strings.NewReader(sb.String()), file)
+	} else {
+		inst.rd.Reset(strings.NewReader(sb.String()), file)
+	}
+	if !inst.rd.Scan() {
+		return nil, false
+	}
+	res, ok := inst.rd.Result().(*benchfmt.Result)
+	if !ok || string(res.Name) != h.name || len(res.Config) != len(h.cfg) || len(res.Values) != len(h.units) {
+		return nil, false
+	}
+	for i, kv := range h.cfg {
+		if res.Config[i].Key != kv[0] || string(res.Config[i].Value) != kv[1] || !res.Config[i].File {
+			return nil, false
+		}
+	}
+	for i, u := range h.units {
+		if res.Values[i].Unit != u {
+			return nil, false
+		}
+	}
+	return res, true
 }
 
 func hFieldText(f hField) string {
 	q := func(s string) string {
-		if s == "" || strings.ContainsAny(s, " \t\"()@,:*") || s[0] == '-' {
+		if s == "" || strings.ContainsAny(s, " \t\"()@,:*=") || s[0] == '-' {
 			return strconv.Quote(s)
 		}
 		return s
@@ -854,9 +910,14 @@ func (hp *hProj) checkOrder(c *hCheck, T *sim.Tape) {
 			if !less[i][j] && !less[j][i] {
 				r.Fail("order-axioms", "not-total", "projection %q: distinct keys %s and %s are not ordered either way", hp.expr.text, keys[i], keys[j])
 			}
-			// agreement with the documented per-field orders in the first differing flattened field
+			// agreement with the documented per-field orders in the first differing flattened field. The residue has no
+			// expression that could say how its fields are ordered (its documentation promises no meaningful order):
+			// for it only the order axioms and SortKeys are checked
 			va, vb := pad(hp.tuples[keys[i]]), pad(hp.tuples[keys[j]])
 			for fi := range fl {
+				if hp.expr.text == "<residue>" {
+					break
+				}
 				if va[fi] == vb[fi] {
 					continue
 				}
@@ -984,6 +1045,9 @@ func hRun(t *testing.T, r *sim.Run, prop string) {
 	if reuse {
 		r.Hit("one Result object reused in place for the whole stream")
 	}
+	// results that come out of a real, re-used Reader (file name and line set), where the text format can carry them
+	fromReader := T.Intn(4, "results-from-reader") == 0
+	readerFiles := T.Intn(2, "reader-file-names")
 	nres := 1 + T.Small(0, 59, "nresults")
 	universe, nsub := 1+T.Intn(3, "universe0"), 1+T.Intn(2, "nsub0")
 	// losslessness bookkeeping on the primary instance
@@ -1059,6 +1123,14 @@ func hRun(t *testing.T, r *sim.Run, prop string) {
 					inst.scratch = &benchfmt.Result{}
 				}
 				res = h.fillResult(inst.scratch)
+			}
+			if fromReader {
+				if rr, ok := h.viaReader(inst, []string{"f", "g"}[ri%2*readerFiles]); ok {
+					res = rr
+					if ii == 0 {
+						r.Hit("result parsed from text by a re-used benchfmt.Reader (it carries a position)")
+					}
+				}
 			}
 			if len(h.units) == 0 {
 				// a result without measurements: nothing for ProjectValues to return, and later keys are none the wiser
